@@ -32,3 +32,23 @@ for d in sorted(glob.glob('/verif/seeded/*')):
         else:
             det.append(f"{p}: not detected" if r['exit'] == 0 else f"{p}: inconclusive")
     print(f"| {os.path.basename(d)} | {m.get('breaks_property', os.path.basename(d)[:3])} | {str(m.get('summary',''))[:200]} | {str(m.get('needs_to_manifest',''))[:160]} | {'; '.join(det)} |")
+print("\n#### Behaviour-preserving changes (false-alarm experiment; every claimed quick check run against each patch)\n")
+print("| id | change | result |")
+print("|---|---|---|")
+try:
+    bres = json.load(open('/verif/benign/results.json'))
+except Exception:
+    bres = {}
+for d in sorted(glob.glob('/verif/benign/b*')):
+    bid = os.path.basename(d)
+    try:
+        m = json.load(open(d + '/meta.json'))
+    except Exception:
+        m = {}
+    r = bres.get(bid)
+    if r is None:
+        out = 'not run'
+    else:
+        bad = [f"{p}: exit {v}" for p, v in sorted(r.items()) if v]
+        out = f"{len(r)} checks, all exit 0" if not bad else ', '.join(bad)
+    print(f"| {bid} | {str(m.get('summary',''))[:220]} | {out} |")
